@@ -6,6 +6,7 @@ import ArvVerif.Props.C10
 import ArvVerif.Proofs.C10_Normalize
 import ArvVerif.Proofs.C10_Termination
 import ArvVerif.Proofs.C10_SizedDigests
+import ArvVerif.Proofs.C10_Extract
 namespace ArvVerif.C10
 
 /-- **C10_resolve_bytes.** `resolve` is the document's semantics: for block contents `blk` of the
@@ -76,5 +77,80 @@ theorem C10_sized_digests (txt : Bytes) (M : Manifest) (hvalid : parseSpec txt =
 
 example : sizedDigests wF3 = some (wF3M.flatMap fun s => s.blocks.map fun b => stripLoc b.text) :=
   C10_sized_digests wF3 wF3M wF3_valid
+
+/-! ## Extract: selection, relocation, rendering -/
+
+/-- **C10_extract_text.** `Manifest.Extract(srcpath, relocate)` is `segment()` followed by
+`normalizedText` of every selected stream (`extractS`), in sorted order; an error (and no text) if
+`segment()` fails; never a panic (`C10_pkg_no_panic`). -/
+theorem C10_extract_text (txt srcpath relocate : Bytes) :
+    (∃ m, pkgSegment txt = .ok m ∧
+      pkgExtract txt srcpath relocate = .ok ((extractS m srcpath relocate).flatMap fun x => normalizedText x.1 x.2)) ∨
+    (pkgSegment txt = .err ∧ pkgExtract txt srcpath relocate = .err) := by
+  have hnp := C10_pkg_no_panic txt
+  unfold pkgExtract pkgExtractWith
+  have e : pkgSegmentWith firstBlock txt = pkgSegment txt := rfl
+  rw [e]
+  cases h : pkgSegment txt with
+  | ok m => exact Or.inl ⟨m, rfl, by simp only [Res.bind]; rw [manifestTextForPath_eq]⟩
+  | err => exact Or.inr ⟨rfl, rfl⟩
+  | panic => exact absurd h hnp
+
+/-- **C10_extract_stream_test.** The stream test of `manifestTextForPath`
+(`k == srcpath || HasPrefix(k, srcpath+"/")`) holds exactly when the path components of `srcpath`
+are a prefix of those of `k`: the stream *is* `srcpath` or lies *below* it — `./ab` is not below
+`./a`. (Seeded change C10-c dropped the `/`; this theorem is what it violates.) -/
+theorem C10_extract_stream_test (src k : Bytes) :
+    (k = src ∨ (src ++ [bSlash]).isPrefixOf k = true) ↔ splitOn bSlash src <+: splitOn bSlash k :=
+  selected_iff_components src k
+
+example : ¬ (splitOn bSlash [46, 47, 97] <+: splitOn bSlash [46, 47, 97, 98]) := by decide
+
+/-- **C10_extract_selects_dir.** When `srcpath` is not a file of the manifest, the streams handed to
+`normalizedText` are exactly the streams at or below `srcpath`, each renamed to
+`relocate ++ (name minus srcpath)`, with all its files and their segment lists unchanged. -/
+theorem C10_extract_selects_dir (m : SegMap) (srcpath relocate : Bytes)
+    (hnofile : m.find? (·.1 = ((splitPath (fixStreamName srcpath)).1, (splitPath (fixStreamName srcpath)).2)) = none)
+    (out : Bytes × List (Bytes × List Seg)) :
+    out ∈ extractS m srcpath relocate ↔
+      ∃ k ∈ streamNames m, splitOn bSlash (fixStreamName srcpath) <+: splitOn bSlash k ∧
+        out = ((let rel := fixStreamName relocate ++ (if relocate.getLast? = some bSlash then [bSlash] else [])
+                if rel.getLast? = some bSlash then rel.dropLast else rel) ++ k.drop (fixStreamName srcpath).length,
+               streamFiles m k) :=
+  extractS_dir m srcpath relocate hnofile out
+
+/-- **C10_extract_selects_file.** When `srcpath` names a file, the result is that file alone, with its
+segment list, in the stream `relocate` denotes, renamed to `relocate`'s last component unless that
+is empty (`relocate` is `.` or ends in `/`). -/
+theorem C10_extract_selects_file (m : SegMap) (srcpath relocate : Bytes) (e : (Bytes × Bytes) × List Seg)
+    (hfile : m.find? (·.1 = ((splitPath (fixStreamName srcpath)).1, (splitPath (fixStreamName srcpath)).2)) = some e) :
+    extractS m srcpath relocate =
+      (let rel := fixStreamName relocate ++ (if relocate.getLast? = some bSlash then [bSlash] else [])
+       [((splitPath rel).1,
+         [(if (splitPath rel).2 = [] then (splitPath (fixStreamName srcpath)).2 else (splitPath rel).2, e.2)])]) :=
+  extractS_file m srcpath relocate e hfile
+
+/-- **C10_normalize_preserves (stream level).** What `normalizedText` renders for a stream: escaped
+name, each digest once (or the empty-block locator), for every file in sorted order the rendering of
+its spans (or `0:0:name`); and those spans, cut out of the concatenation of the listed blocks, are
+exactly the bytes of the file's segments, for every file of the stream.
+
+Still not proved in Lean: that the rendered text, parsed again, yields these very tokens (decimal
+formatting of the spans; the names are `C10_escape_roundtrip`). The correspondence oracle re-parses
+every `Extract` output with the reference interpreter. -/
+theorem C10_normalize_preserves (blk : Bytes → Bytes) (name : Bytes) (files : List (Bytes × List Seg))
+    (hc : DigestConsistent blk ((sortBytes (files.map (·.1))).flatMap fun fn =>
+      match files.find? (·.1 = fn) with | some e => e.2 | none => [])) :
+    let sorted := sortBytes (files.map (·.1))
+    let segsOf := fun fn => match files.find? (·.1 = fn) with | some e => e.2 | none => []
+    let r := normBlocks (sorted.flatMap segsOf) [] [] 0
+    let btoks := if r.2.1 = [] then [emptyBlockLocator] else r.2.1
+    let S := streamBytes blk (r.2.1.map fun t => ⟨t, locSize t⟩)
+    normalizedText name files =
+      joinWith bSpace (pkgEscape name :: btoks ++ sorted.flatMap fun fn => normFileToks r.1 fn (segsOf fn)) ++ [bNL] ∧
+    (∀ fn, fn ∈ sorted ↔ fn ∈ files.map (·.1)) ∧
+    ∀ fn ∈ sorted, (normSpansS r.1 (segsOf fn) none).flatMap (spanSlice S) = segBytes blk (segsOf fn) := by
+  intro sorted segsOf r btoks S
+  exact ⟨normalizedText_eq name files, fun fn => mem_sortBytes fn _, normalizedText_bytes blk files hc⟩
 
 end ArvVerif.C10
